@@ -64,13 +64,14 @@ def gate(k):
     return BatchItemBase(Gate(k))
 
 
-def enter(bound):
+def enter(bound, fn=None):
+    """called first thing by every decorated body; fn = index of the function this body belongs to (families)"""
     c = H.current
     H.current = None
     if c is None:
-        H.log.append(["run", -1, bound])
+        H.log.append(["run", -1, bound, fn])
         return {"id": -1, "bl": False, "body": ["ret", -1], "fin": BIG, "inst": None}
-    H.log.append(["run", c["id"], bound])
+    H.log.append(["run", c["id"], bound, fn])
     return c
 
 
@@ -139,7 +140,9 @@ def find_lru(fn):
 
 
 def build(case):
-    """returns (caller, snap) where caller(op) -> future of the call"""
+    """returns (caller, snap, w) where caller(op) -> future of the call; w = the decorated callable(s)"""
+    if "fns" in case:
+        return build_family(case)
     kind = case["kind"]
     ns = {"asynq": asynq, "H": H, "T": T}
     if kind == "lazy":
@@ -194,6 +197,70 @@ def build(case):
     return caller, snap, deco_obj
 
 
+def build_family(case):
+    """Several functions (or methods of one class) decorated through explicit decorator objects:
+    case["decos"][d] configures decorator object d (created once: `_d0 = T.alru_cache(...)`), case["fns"][f]["deco"]
+    says which object function f is decorated with - two functions may name the same object (`@_d0` twice) or
+    objects created by separate, possibly identical, decorator calls."""
+    kind = case["kind"]
+    fns = case["fns"]
+    ns = {"asynq": asynq, "H": H, "T": T}
+    lines = []
+    if kind == "alru":
+        for d, cfg in enumerate(case["decos"]):
+            ns["_kf%d" % d] = key_fn_of(cfg["km"])
+            lines.append("_d%d = T.alru_cache(maxsize=%d, key_fn=_kf%d)" % (d, cfg["maxsize"], d))
+    elif kind == "inst":
+        for d in range(case["decos"]):
+            lines.append("_d%d = T.acached_per_instance()" % d)
+    else:
+        for d, cfg in enumerate(case["decos"]):
+            lines.append("_d%d = T.alazy_constant(ttl=%d)" % (d, cfg["ttl"]))
+    method = kind == "inst" or (kind == "alru" and case["target"] == "method")
+    if method:
+        lines.append("class Obj(object):")
+        lines.append("    def __init__(self, k):")
+        lines.append("        self.k = k")
+    ind = "    " if method else ""
+    for f, fd in enumerate(fns):
+        if kind == "lazy":
+            ps, bound = "", "{}"
+        else:
+            ps, bound = params_src(fd["sig"], method)
+        lines.append("%s@_d%d" % (ind, fd["deco"]))
+        lines.append("%s@asynq()" % ind)
+        lines.append("%sdef %s%d(%s):" % (ind, "m" if method else "body", f, ps))
+        lines.append("%s    _c = H.enter(%s, %d)" % (ind, bound, f))
+        lines.append("%s    return (yield H.run.asynq(_c))" % ind)
+    exec("\n".join(lines) + "\n", ns)
+    if not method:
+        ws = [ns["body%d" % f] for f in range(len(fns))]
+        if kind == "lazy":
+            return (lambda op: ws[op["fn"]].asynq()), (lambda: None), ws
+        caches = [find_lru(getattr(w, "fn", None)) for w in ws]
+
+        def caller(op):
+            return ws[op["fn"]].asynq(*op["args"], **{pname(n): v for n, v in op["kw"]})
+        return caller, (lambda: [-1 if c is None else len(c) for c in caches]), ws
+    Obj = ns["Obj"]
+    decos = [Obj.__dict__["m%d" % f] for f in range(len(fns))]
+
+    def caller(op):
+        i = op["inst"]
+        if i not in H.instances:
+            H.instances[i] = Obj(i)
+            H.wrefs[i] = weakref.ref(H.instances[i])
+        return getattr(H.instances[i], "m%d" % op["fn"]).asynq(*op["args"], **{pname(n): v for n, v in op["kw"]})
+    if kind == "alru":
+        caches = [find_lru(getattr(d, "fn", None)) for d in decos]
+        return caller, (lambda: [-1 if c is None else len(c) for c in caches]), decos
+    pcs = [getattr(d, "__acached_per_instance_cache__", None) for d in decos]
+
+    def snap():
+        return [[-1, -1] if pc is None else [len(pc), sum(len(v[1]) for v in pc.values())] for pc in pcs]
+    return caller, snap, decos
+
+
 def run_case(case):
     H.log = []
     H.current = None
@@ -217,7 +284,8 @@ def run_case(case):
                 f = BIG + k
                 for k2 in range(k + 1, len(ops)):
                     o2 = ops[k2]
-                    if o2["op"] == "finish" and o2["id"] == op["id"] and (case["kind"] != "inst" or o2.get("inst") == op.get("inst")):
+                    if (o2["op"] == "finish" and o2["id"] == op["id"] and (case["kind"] != "inst" or o2.get("inst") == op.get("inst"))
+                            and o2.get("fn") == op.get("fn")):
                         f = k2
                         break
                 fin[k] = f
@@ -260,7 +328,7 @@ def run_case(case):
                         gc.collect()          # the instance is only kept by garbage cycles
                     H.log.append(["sync", "RUnit"])
             elif kind == "dirty":
-                w.dirty()
+                (w[op["fn"]] if "fns" in case else w).dirty()
                 H.log.append(["sync", "RUnit"])
             elif kind == "tick":
                 H.now += op["dt"]
@@ -294,11 +362,18 @@ def digest(case, log):
                 snaps_after[cur] = ev[1]
         elif cur is not None:
             win[cur].append(ev)
-    ran = [ev[1] for ev in log if ev[0] == "run"]
+    fam = "fns" in case
+    nf = len(case["fns"]) if fam else 0
+    if fam:     # (call id, index of the function whose body ran)
+        ran = [{"": [ev[1], ev[3] if ev[3] is not None else -1]} for ev in log if ev[0] == "run"]
+    else:
+        ran = [ev[1] for ev in log if ev[0] == "run"]
     bodyargs = {str(ev[1]): ev[2] for ev in log if ev[0] == "run"}
     order = [ev[1] for ev in log if ev[0] == "op" and ev[1] < BIG]
     rs = []
     last_snap = 0 if kind == "alru" else [0, 0]
+    if fam:
+        last_snap = [0] * nf if kind == "alru" else [[0, 0]] * nf
     ran_before = set()
     for k, op in enumerate(ops):
         evs = win.get(k)
@@ -339,14 +414,18 @@ def digest(case, log):
             last_snap = snaps_after[k]
         elif k in snaps_after and snaps_after[k] is None and kind != "lazy":
             last_snap = None
-        if kind == "alru":
+        if fam and kind == "alru":
+            rs.append({"": [r, list(last_snap)]})
+        elif fam and kind == "inst":
+            rs.append({"": [r, [{"": list(x)} for x in last_snap]]})
+        elif kind == "alru":
             rs.append({"": [r, last_snap if last_snap is not None else -1]})
         elif kind == "inst":
             s = last_snap if last_snap is not None else [-1, -1]
             rs.append({"": [r, s[0], s[1]]})
         else:
             rs.append(r)
-    ctor = {"alru": "OAlru", "inst": "OInst", "lazy": "OLazy"}[kind]
+    ctor = {"alru": "OAlru", "inst": "OInst", "lazy": "OLazy"}[kind] + ("M" if fam else "")
     return {"out": {ctor: [rs, ran]}, "bodyargs": bodyargs, "order": order}
 
 
